@@ -24,6 +24,9 @@
 (***************************************************************************)
 EXTENDS Integers, Sequences, FiniteSets, SequencesExt, FiniteSetsExt, TLC
 
+CONSTANT BeginOnce   \* BOOLEAN: TRUE = a one-to-one transaction begins once (repaired TransactionManager.Begin);
+                     \* FALSE = as first found: the same request again, let through by an unordered destination, starts it over
+
 Get(f, k, d) == IF k \in DOMAIN f THEN f[k] ELSE d
 Put(f, k, v) == [x \in DOMAIN f \cup {k} |-> IF x = k THEN v ELSE f[x]]
 Drop(f, k)   == [x \in DOMAIN f \ {k} |-> f[x]]
@@ -129,7 +132,7 @@ ShouldAcceptReq(g, env, t) ==
   /\ (IsBatchDst(env, t) \/ t.idx = Get(g.acc, <<t.src, t.dst>>, 0) + 1)
   /\ (t.gid # "" => (t.id \notin DOMAIN g.kid))
   /\ (XH(t) => ~Seen(g, t.id))     \* between two hubs a known id is only ever a notice
-  /\ (t.gid = "" => t.id \notin DOMAIN g.st)   \* a one-to-one transaction begins once (matters for unordered destinations only)
+  /\ ((t.gid = "" /\ BeginOnce) => t.id \notin DOMAIN g.st)   \* a one-to-one transaction begins once (matters for unordered destinations only)
 
 ShouldAcceptRcpt(g, env, t) ==
   /\ ProofOK(env, t)
